@@ -226,11 +226,70 @@ def generate(rng, tier):
             yield emit(rng, any_form(rng), a, b)
 
 
-REFINED = []
-FRONTIER = []
-RULE = ""
-EXPLANATION = ""
-ASSUMPTIONS = []
-LEVEL_TEXT = ""
-LEVEL_NOTE = ""
-TECHNIQUE = "Lean 4 refinement proofs (induction over word lists, all W) + differential correspondence model vs real code"
+USES_GEN = True
+GEN_PROPS = ["Dashu.Props.GenInt"]
+GEN_AUDIT = ["Dashu.Audit.GenInt"]
+
+_C02 = ["truncating_conventions", "euclidean_conventions",
+        "div_by_word_exact", "div_by_dword_exact", "rem_by_word_exact", "rem_by_dword_exact",
+        "knuth_step_exact", "simple_div_rem_exact", "div_rem_large_exact",
+        "ubig_div_rem_exact", "ubig_div_exact", "ubig_rem_exact", "ubig_division_identity",
+        "ubig_is_multiple_of_exact",
+        "ibig_div_exact", "ibig_rem_exact", "ibig_div_rem_exact", "ibig_div_euclid_exact",
+        "ibig_rem_euclid_exact", "ibig_div_rem_euclid_exact", "ubig_ibig_rem_exact",
+        "ubig_ibig_div_rem_exact", "ibig_is_multiple_of_exact",
+        "const_divisor_new_value", "const_divisor_eq_plain", "const_divisor_ibig_exact"]
+_GEN = ["ibig_div_exact", "ibig_rem_exact", "ibig_divrem_exact", "ibig_div_euclid_exact",
+        "ibig_rem_euclid_exact", "ibig_divrem_euclid_exact", "ubig_ibig_rem_exact", "ubig_ibig_divrem_exact"]
+THEOREMS = ["Dashu.Props.C02." + t for t in _C02] + ["Dashu.Props.GenInt." + t for t in _GEN]
+
+REFINED = [
+    "shift::shl_in_place / shr_in_place / shr_in_place_with_carry / shr_in_place_one_word, math::shl_dword / shr_word",
+    "div::div_by_word_in_place (rhs=1, power-of-two shortcut, normalisation shift, remainder un-shift) + fast_div_by_word_in_place",
+    "div::rem_by_word + fast_rem_by_normalized_word",
+    "div::div_by_dword_in_place (power-of-two path 2^W..2^(2W-1), 3by2 top, 4by2 chain, odd leftover word) + fast_div_by_dword_in_place",
+    "div::rem_by_dword + fast_rem_by_normalized_dword",
+    "cmp::cmp_same_len, mul::sub_mul_word_same_len_in_place (carry_plus_max)",
+    "div::simple::div_rem_highest_word (Knuth D: estimate never too small / too large by <= 1, borrow>lhs_top correction, both debug_asserts)",
+    "div::simple::div_rem_in_place (quotient carry, loop)",
+    "div::normalize, div::div_rem_unshifted_in_place (q_top), div::div_rem_in_place (algorithm choice)",
+    "div_ops::repr::{div_rem_in_lhs, div_rem_large, div_large, rem_large, div_rem_dword, div_rem_large_dword, rem_large_dword}",
+    "DivRem / Div / Rem for TypedRepr (all four size-class arms, zero divisor -> panic_divide_by_0)",
+    "TypedRepr::add_one; impl_ibig_div, impl_ibig_rem, impl_ibig_divrem, impl_ibig_div_euclid, impl_ibig_rem_euclid, impl_ibig_divrem_euclid, impl_ubig_ibig_rem, impl_ubig_ibig_divrem (model glue = glue regenerated from /repo = Int.tdiv/tmod resp. ediv/emod)",
+    "UBig::is_multiple_of, IBig::is_multiple_of",
+    "ConstDivisor::new (single/double/large, zero -> divide-by-zero panic), value(); div_rem_small_single, div_rem_small_double, ConstSingleDivisor::{rem_dword, rem_large}, ConstDoubleDivisor::{rem_dword, rem_large}; Div / Rem / DivRem<&ConstDivisor> for TypedRepr, IBig forms",
+]
+FRONTIER = [
+    "div::divide_conquer::div_rem_in_place (Burnikel-Ziegler; reached only when divisor > 32 words AND quotient > 32 words): modelled as its specification `divRemInPlaceDCFrontier`",
+    "num-modular Normalized2by1Divisor / Normalized3by2Divisor (div_rem_1by1/2by1/2by2/3by2/4by2, `new`): contract parameters = exact floor division guarded by the crate's own preconditions",
+    "TypedReprRef::is_multiple_of_dword (is_multiple_of_const): modelled and run for non-zero divisors, no theorem in Props/C02 (it is rem_by_word / rem_by_dword, which are proved)",
+]
+RULE = ("corpus, then: every form (u/i/ui/iu x div,rem,divrem,diveuclid,remeuclid,divremeuclid,ismultiple; ConstDivisor cdiv,crem,cdivrem,cdivrem2 "
+        "for UBig and IBig; is_multiple_of_const; ConstDivisor::value/from_word/from_dword) x {zero divisor with dividends of each representation class; "
+        "divisors 2^k, 2^k+-1 for every k in 0..192 with dividends 0..3 words longer; one-word divisors (1, 2, B-1, B/2, B/2+-1, ...) and two-word divisors "
+        "(B, B+1, 2B-1, B^2-1, B^2/2, ...) with/without top bit x dividends of 0..70 (thorough: 1025) words; multi-word divisors of sizes {3,4,5,8,16,31,32,33,34,40,47,63..70} "
+        "x quotient sizes from the same set (both sides of THRESHOLD_SIMPLE=32 on both lengths) with a = q*b + r, q's top word all ones, r in {0,1,b-1,b/2,random}; "
+        "quotient-carry dividends (top n words >= b); estimate-too-large constructions (b = d*B^(n-2) + all-ones low part, a = Q*d*B^(n-2)); dividend top word = divisor top word; "
+        "a<b, a=b, a=0; ConstDivisor one-word divisors with top bit set x two-word dividends around `high word < divisor`; random structured operands}; signs random. "
+        "Thorough adds 3000-word dividends and Burnikel-Ziegler sizes up to 1500 x 1500 words. Every case runs all ownership/assign call forms in the harness. "
+        "Non-trivial := some operand >= 3 words; distinct := distinct (op,args) lines.")
+EXPLANATION = ("Theorems (all W >= 1, all lengths): the word-divisor and double-word-divisor loops, the power-of-two shortcuts, Knuth D (estimate, correction, loop, quotient carry), "
+               "normalize / unshifted division / remainder shift-back, the four size-class arms of `/`, `%`, div_rem on magnitudes, zero divisor = documented panic in every form, "
+               "is_multiple_of, ConstDivisor (new/value and Div/Rem/DivRem for UBig and IBig) = plain division. The IBig and mixed sign tables executed by the model are proved equal "
+               "to the glue regenerated from /repo's macros (Tie A), whose meaning (Int.tdiv/tmod, Int.ediv/emod) is proved in Props/GenInt. Burnikel-Ziegler is at the model frontier "
+               "(defined as its spec); num-modular's dividers are contract parameters.")
+ASSUMPTIONS = ["num-modular 0.6 Normalized2by1Divisor::div_rem_2by1 / div_rem_1by1 and Normalized3by2Divisor::div_rem_2by2 / 3by2 / 4by2 return exact floor quotient and remainder when their documented precondition (a_hi < divisor) holds; `new` requires the top bit set",
+               "u64::leading_zeros, trailing_zeros, is_power_of_two, <<, >>, &, | at their documented meaning",
+               "Burnikel-Ziegler (divisor > 32 words and quotient > 32 words) is tied to the model by the correspondence run only"]
+TRUSTED = ["num-modular division primitives at their contract (exercised through every case of the correspondence)"]
+LEVEL_TEXT = ("Machine-checked Lean 4 theorems, for every word size W >= 1 and every operand length, that the mirrored division code of dashu-int (single- and double-word divisor "
+              "loops with their power-of-two shortcuts, Knuth algorithm D with normalisation, top-word correction and quotient carry, the size-class dispatch, the zero-divisor panic "
+              "in every form, the truncating and Euclidean sign conventions, is_multiple_of, and ConstDivisor in all three classes) computes exactly a = q*b + r with the documented "
+              "conventions; the hand-written model is tied to /repo on every run by differential execution of model and real code over structured operands around every branch condition, "
+              "all call forms, and the sign tables additionally by regeneration from the macro source. The divide-and-conquer algorithm (divisor and quotient both > 32 words) is at the "
+              "model frontier: decided by the correspondence against exact Nat division, not by a refinement theorem.")
+LEVEL_NOTE = ("Trusted: Lean kernel; axioms propext/Classical.choice/Quot.sound; num-modular's division primitives and std bit intrinsics at their documented contracts (modelled as exact "
+              "floor division guarded by the crate's own preconditions, every precondition proved at each call site); the correspondence harness and generators (sampling) for the tie "
+              "model<->code; the Burnikel-Ziegler kernel is modelled as its specification, not verified. Finding recorded and fixed in /repo (commit 2941615): ConstDivisor `%` with a "
+              "normalised one-word divisor and an inline dividend whose high word is >= the divisor.")
+TECHNIQUE = "Lean 4 refinement proofs (induction over word lists, all W) + differential correspondence model vs real code + sign tables regenerated from source"
